@@ -132,7 +132,7 @@ func (a *gnfa) node() int {
 	a.n++
 	return a.n - 1
 }
-func (a *gnfa) eps(f, t int)          { a.edges = append(a.edges, gedge{from: f, to: t, eps: true}) }
+func (a *gnfa) eps(f, t int)         { a.edges = append(a.edges, gedge{from: f, to: t, eps: true}) }
 func (a *gnfa) sym(f, t int, s gsym) { a.edges = append(a.edges, gedge{from: f, to: t, s: s}) }
 
 // ---- extraction ----
